@@ -3,6 +3,8 @@ import HpxVerif.Props.C15
 import HpxVerif.Lemmas.EllipseReal
 import HpxVerif.Props.C16
 
+set_option autoImplicit false   -- an unknown identifier in a statement is an error, never a new variable
+
 /-!
 # C13 — elliptical-cone coverage: centre kept, circular case sound, tight, guarded
 
